@@ -141,6 +141,7 @@ pub fn run_trie_batches(ctx: &mut Ctx, prop: &str) -> EngineInfo {
             "refreeze_unmodified",
             "new_generation",
             "rollback",
+            "rollback_unobserved",
             "refused_by_lock",
             "concurrent_iterators",
             "stale_handle_used",
